@@ -4,7 +4,7 @@ from vlib import *
 META = {
     "technique": "Lean 4 theorems over a model of occa::range / occa::array / occa::forLoop whose integer formulas (range::length, the safe tile sizes, the CPU reduction's block arithmetic, the three loops the OKL translator makes of the tiled map loop) are regenerated from the C++ (clang AST, kernel text, the tree's own `occa translate`); differential run of the model against the real library, which JIT-compiles every kernel on a Serial and an OpenMP device under ASan/UBSan, with std:: oracles in the harness",
     "category": "proof",
-    "level_text": "Proof, for all inputs: range::length equals the number of iterations of the sequential loop for both signs of the step (C23_range_len, C23_range_values); the tiled map loop visits exactly the indices 0..len-1, each once, for every len, tile size >= 1 and tile iteration count >= 1 once @tile scales its inner bound (C23_map_cover), with the present @tile (defect F25, owned by C18) refuted by a witness and proved for tile iterations = 1 (C23_map_cover_partial); the block-wise CPU reduction equals the sequential fold for every associative operation with identity and for every semilattice operation started from an element (C23_reduce_blocks*, instances +,*,min,max on Int); forLoop tuples are exactly the cartesian product, each once (C23_forloop_tuples*).  Tied to the code by the regenerated definitions and by a seeded differential run of every public array/range/forLoop operation against the model.",
+    "level_text": "Proof, for all inputs: range::length equals the number of iterations of the sequential loop for both signs of the step and the kernels' values are that loop's values (C23_range_len, C23_range_values); the tiled map loop visits exactly the indices 0..len-1 in order, each once, for every len, tile size and tile iteration count, through the safe-size computation of getMapArrayScope and the loop nest printed by the tree's own OKL translator (C23_map_cover, C23_map_cover_perm, C23_safe_tile, C23_map_gen_eq, C23_map_visit; the pre-repair @tile is refuted by a witness and proved for one tile iteration), so array::map is std::transform in the state model with aliasing views (C23_map_is_transform); every/some are the conjunction/disjunction (C23_every_some); the block-wise CPU reduction equals the sequential fold for every associative operation with identity and every semilattice operation from any start value, with the 128 blocks proved to partition the index range (C23_cpu_blocks_cover, C23_reduce_blocks_*, C23_cpu_reduce_*, instances sum, product, min, max, dot; C23_index_of for indexOf); forLoop tuples are exactly the cartesian product, each once, and a tiled range loop visits the plain loop's values for both signs (C23_forloop_tuples_*, C23_tiled_range_up/down).  Known findings kept as full/fails/partial triples: findIndex returns the last match (F60), an initial value is folded into every block (F62).  Tied to the code by the regenerated definitions and by a seeded differential run of every public array/range/forLoop operation on Serial and OpenMP against the model with std:: oracles.",
     "level_note": "Trusted: Lean kernel; translate/gen_range.py (clang-14 AST -> Lean for range::length and the safe tile sizes; regex + a small expression parser for the reduce kernel text; the loop headers printed by the tree's own OKL translator for the tiled map loop); the hand-written operation layer of OccaModel/Functional.lean and Driver/Func.lean (validated by the correspondence run, not proved equal to the C++); float results are tested against an order-independent error bound, never proved; int overflow is outside the quantifier; the JIT-generated kernel source is exercised, not modelled; GPU code paths (typelessGpuReduce, buildGpuMapTiledForLoops) are not reachable on Serial/OpenMP and are not covered.",
     "design_ref": "DESIGN.md section 4, C23",
 }
